@@ -321,7 +321,21 @@ func c09ConcurrentRun(c *runner.Ctx) {
 		return
 	}
 	mergeRef = append([]byte(nil), mergeRef...)
-	// a second, cold copy of each shared segment for the lazy FST load to race with itself
+	// replace every shared segment by a freshly loaded copy: its FST cache is cold, so the goroutines'
+	// first dictionary opens race with each other (and with the mergers) on the lazy load path
+	cold := make([]*gen.Seg, len(segs))
+	for i, sg := range segs {
+		t := &gen.Seg{X: sg.X, Mode: sg.Mode, Bytes: refBytes[i]}
+		ct, err := t.Reload(c.TmpDir, i%2 == 1)
+		if err != nil {
+			c.Note("reload failed (C04's business)")
+			return
+		}
+		defer ct.Close()
+		cold[i] = ct
+	}
+	segs = cold
+	mergeIn = segs[:len(mergeIn)]
 	readers := 12
 	mergers := 2
 	opsPer := tierN(c.Tier, 250, 1200)
